@@ -1,7 +1,6 @@
 import QV.Model.Decopt
 import QV.Proofs.Decopt
-import QV.Proofs.Decopt2a
--- PORT-PENDING import QV.Proofs.Decopt2   (not yet ported to the repaired compiler model, docs/notes/PORT-PENDING.md)
+import QV.Proofs.Decopt2
 /-!
 # C12 – The circuit boolean optimizer returns an equivalent, no larger circuit
 
@@ -15,12 +14,8 @@ amplitude type and every meaning of the gates in which X/CX/CCX/MCX/MCtrl(X) per
 states as `applyClassical` says and `I`/barriers do nothing (all other gates arbitrary), the two
 gate lists send every state to the same state.
 
-**PORT-PENDING**: the internal-compiler model now follows the repaired compiler (`docs/fixes/CC-*.diff`);
-`QV/Proofs/Decopt2.lean` (the theorem `stable_xonly` about the compiler model in decopt mode) is not yet
-ported, so `accepted_xonly`, `accepted_section_ok`, `C12_full`, `repaired_validated` and
-`C12_statement_holds` are parked in `PORT-PENDING` blocks (`docs/notes/PORT-PENDING.md`); until then the
-property is proved per run under the decidable shape predicate (`C12_xonly_partial`, hypothesis `xonlyRun`
-evaluated by the check on every case) and under the validator (`C12_partial`).
+The internal-compiler model follows the repaired compiler (`docs/fixes/CC-*.diff`); `accepted_xonly`
+(`QV/Proofs/Decopt2.lean`) is ported to it.
 
 `C12_statement` below is the full property of the repaired model.  It is **proved** at the end of
 this file (`C12_full`, `C12_statement_holds`): the missing theorem about the internal compiler is
@@ -324,7 +319,6 @@ theorem C12_xonly_partial (simp : BExp → BExp) (hs : SimpSound simp) (K : Kern
   simp only [ha, Bool.not_true, Bool.false_or] at this
   exact xonly_splice_ok simp hs K hK K4 hK4 q n gs secs hdec s hmem r.gates this
 
-/- PORT-PENDING theorem accepted_xonly (needs QV.Proofs.Decopt2 (stable_xonly, simplifySection_keysOK, accept_stable; Decopt2 needs the run lemmas of QV.Proofs.CompilerSem); text unchanged)
 /-- **accepted_xonly** (the theorem about the internal compiler that was missing): for every
 section of a decompilation, every simplifier (sound or not), every sequence of ancilla choices: a
 re-synthesis `exprs_to_quantum(simplified expressions, symbols = q0 … q{n-1})` that the repaired
@@ -339,9 +333,7 @@ theorem accepted_xonly (simp : BExp → BExp) (K : Kernel) (hK : K.Sound) (K4 : 
     (hr : resynth n (simplifySection simp K4 s) choices = .ok r)
     (ha : accept Quirks.none n s r = true) : xonly n (simplifySection simp K4 s) r.gates = true :=
   stable_xonly (simplifySection_keysOK hK (decompile_exps hdec s hmem) simp K4) hr (accept_stable ha)
-PORT-PENDING end -/
 
-/- PORT-PENDING theorem accepted_section_ok (needs QV.Proofs.Decopt2 (stable_xonly, simplifySection_keysOK, accept_stable; Decopt2 needs the run lemmas of QV.Proofs.CompilerSem); text unchanged)
 /-- **accepted_section_ok**: with a meaning-preserving simplifier, every re-synthesis the repaired
 splice test accepts has the classical action of the section it replaces -/
 theorem accepted_section_ok (simp : BExp → BExp) (hs : SimpSound simp) (K : Kernel) (hK : K.Sound)
@@ -351,9 +343,7 @@ theorem accepted_section_ok (simp : BExp → BExp) (hs : SimpSound simp) (K : Ke
     (ha : accept Quirks.none n s r = true) : SectionOK n s.gates r.gates :=
   xonly_splice_ok simp hs K hK K4 hK4 q n gs secs hdec s hmem r.gates
     (accepted_xonly simp K hK K4 q n gs secs hdec s hmem choices r hr ha)
-PORT-PENDING end -/
 
-/- PORT-PENDING theorem C12_full (needs QV.Proofs.Decopt2 (stable_xonly, simplifySection_keysOK, accept_stable; Decopt2 needs the run lemmas of QV.Proofs.CompilerSem); text unchanged)
 /-- **C12_full** (the whole property of the repaired model): for every circuit built by
 `QCircuit.append` (distinct wires per gate), every meaning-preserving `simplify_logic`, all sound
 constructor kernels and all ancilla choices, every successful run of `circuit_boolean_optimizer`
@@ -380,9 +370,7 @@ theorem C12_full (simp : BExp → BExp) (hs : SimpSound simp) (K : Kernel) (hK :
       | true =>
         simp only [Bool.not_true, Bool.false_or]
         exact accepted_xonly simp K hK K4 Quirks.none n gs secs hdec s hmem (choices s) r hr ha
-PORT-PENDING end -/
 
-/- PORT-PENDING theorem repaired_validated (needs QV.Proofs.Decopt2 (stable_xonly, simplifySection_keysOK, accept_stable; Decopt2 needs the run lemmas of QV.Proofs.CompilerSem); text unchanged)
 /-- **repaired_validated**: the per-instance validator of `C12_partial` never fails on the repaired
 model (it is still run on every case as a cross-check of model and proof) -/
 theorem repaired_validated (simp : BExp → BExp) (hs : SimpSound simp) (K : Kernel) (hK : K.Sound)
@@ -402,13 +390,10 @@ theorem repaired_validated (simp : BExp → BExp) (hs : SimpSound simp) (K : Ker
       simp only [Bool.not_true, Bool.false_or]
       exact sectionOKb_complete
         (accepted_section_ok simp hs K hK K4 hK4 q n gs secs hdec s hmem (choices s) r hr ha)
-PORT-PENDING end -/
 
-/- PORT-PENDING theorem C12_statement_holds (needs QV.Proofs.Decopt2 (stable_xonly, simplifySection_keysOK, accept_stable; Decopt2 needs the run lemmas of QV.Proofs.CompilerSem); text unchanged)
 /-- `C12_statement` holds -/
 theorem C12_statement_holds : C12_statement := fun simp hs choices n gs out hwf h =>
   C12_full simp hs rawKernel rawKernel_sound rawKernel4 rawKernel4_sound choices n gs out hwf h
-PORT-PENDING end -/
 
 /-- a simplifier that knows `q0 ^ (q0 ^ q1) = q1` and leaves everything else alone -/
 def cxcxSimp : BExp → BExp := fun e =>
